@@ -32,6 +32,9 @@ func (pass *Unspec) processSchema(schema *ast.Schema) *ast.Schema {
 	originalObjects := schema.Objects
 	schema.Objects = orderedmap.New[string, ast.Object]()
 
+	// original name → new name, for the objects that are renamed
+	renamed := make(map[string]string)
+
 	originalObjects.Iterate(func(name string, object ast.Object) {
 		if strings.EqualFold(object.Name, "spec") && object.Type.IsStruct() {
 			object.Name = schema.Package
@@ -41,10 +44,61 @@ func (pass *Unspec) processSchema(schema *ast.Schema) *ast.Schema {
 
 			object.SelfRef.ReferredType = object.Name
 			object.AddToPassesTrail(fmt.Sprintf("Unspec[%s → %s]", name, object.Name))
+
+			renamed[name] = object.Name
 		}
 
 		schema.AddObject(object)
 	})
 
-	return schema
+	if len(renamed) == 0 {
+		return schema
+	}
+
+	// references to the renamed objects have to follow
+	if newName, found := renamed[schema.EntryPoint]; found {
+		schema.EntryPoint = newName
+	}
+
+	rewriteName := func(pkg string, name string) string {
+		if newName, found := renamed[name]; found && pkg == schema.Package {
+			return newName
+		}
+
+		return name
+	}
+
+	visitor := &Visitor{
+		OnRef: func(_ *Visitor, _ *ast.Schema, def ast.Type) (ast.Type, error) {
+			def.Ref.ReferredType = rewriteName(def.Ref.ReferredPkg, def.Ref.ReferredType)
+			return def, nil
+		},
+		OnConstantRef: func(_ *Visitor, _ *ast.Schema, def ast.Type) (ast.Type, error) {
+			def.ConstantReference.ReferredType = rewriteName(def.ConstantReference.ReferredPkg, def.ConstantReference.ReferredType)
+			return def, nil
+		},
+		OnDisjunction: func(visitor *Visitor, schema *ast.Schema, def ast.Type) (ast.Type, error) {
+			for discriminator, typeName := range def.Disjunction.DiscriminatorMapping {
+				def.Disjunction.DiscriminatorMapping[discriminator] = rewriteName(schema.Package, typeName)
+			}
+
+			var err error
+			for i, branch := range def.Disjunction.Branches {
+				def.Disjunction.Branches[i], err = visitor.VisitType(schema, branch)
+				if err != nil {
+					return ast.Type{}, err
+				}
+			}
+
+			return def, nil
+		},
+	}
+
+	// the callbacks above never fail
+	newSchema, err := visitor.VisitSchema(schema)
+	if err != nil {
+		return schema
+	}
+
+	return newSchema
 }
